@@ -555,6 +555,8 @@ def extract(meta, harness_path, workdir, native=False):
     sliced, fired['R-trap'] = rule_trap(sliced)
     sliced, fired['R-ovl'] = rule_ovl(sliced)
     sliced, fired['R-apply'] = rule_apply(sliced)
+    alc = meta.get('apply_loop_contracts', {}) if not native else {}
+    sliced = re.sub(r'__VERIF_APPLY_LOOP_CONTRACT_(\d+)', lambda m: alc.get(m.group(1), ''), sliced)
     sliced, fired['R-async'] = rule_blockbody(sliced, meta.get('block_calls', []))
     sliced, fired['R-ginit'] = rule_ginit(sliced)
     if not native:
